@@ -226,8 +226,12 @@ pub(crate) fn lehmer_step(x: &mut [Word], y: &mut [Word], a: Word, b: Word, c: W
 #[inline]
 pub fn memory_requirement_up_to(lhs_len: usize, rhs_len: usize) -> Layout {
     // Required memory:
-    // - temporary space for the division in the euclidean step
-    div::memory_requirement_exact(lhs_len, rhs_len)
+    // - temporary space for the division in the euclidean step. The operands shrink during
+    //   the algorithm, so a division of any (l, r) words with l <= lhs_len, r <= rhs_len can
+    //   happen; the requirement of a division is bounded by a multiplication with a factor of
+    //   at most r / 2 words (see div::divide_conquer::memory_requirement_exact).
+    debug_assert!(lhs_len >= rhs_len);
+    mul::memory_requirement_up_to(rhs_len, rhs_len / 2)
 }
 
 pub(crate) fn gcd_in_place(
